@@ -94,6 +94,14 @@ def poly_of(e, names, depth=0):
         a, b = poly_of(e['lhs'], names, depth), poly_of(e['rhs'], names, depth)
         return padd(a, b) if e['op'] == 'Add' else padd(a, b, -1) if e['op'] == 'Sub' else pmul(a, b)
     if e['k'] == 'Cast' or e['k'] == 'Use': return poly_of(e['source'], names, depth)
+    if e['k'] == 'Field' and depth < 8:
+        # a coordinate kept in a small record or tuple: `let square = Square { row: j, column: i + j }; square.row * n + square.column`
+        b = strip(e['lhs'])
+        lit = b if b['k'] in ('Adt', 'Tuple') else strip(LETS[0][b['var']]) if b['k'] in ('VarRef', 'UpvarRef') and b['var'] in LETS[0] else None
+        if lit is not None and lit['k'] == 'Adt' and lit.get('base') is None:
+            fs = [f for f in lit['fields'] if f['idx'] == e['field']]
+            if len(fs) == 1: return poly_of(fs[0]['expr'], names, depth + 1)
+        if lit is not None and lit['k'] == 'Tuple' and e['field'] < len(lit['fields']): return poly_of(lit['fields'][e['field']], names, depth + 1)
     raise NUndec('index expression construct %s (%s)' % (e['k'], pp(e)[:50]), e.get('loc'))
 
 def for_loop(e):
